@@ -13,7 +13,8 @@ File(bs) ==     \* bs: sequence of block descriptions
    error |-> \E i \in 1..Len(bs) : IsCorrupt(bs[i]),
    graphs |-> [i \in 1..Len(bs) |-> Meaning(bs[i], "graph" \o ToString(i))]]
 Singles == {File(<<b>>) : b \in Good}
-Doubles == {File(<<p[1], p[2]>>) : p \in Spread(Clean \X Good, Cap)}
+First == {b \in Clean : b.nhead = 1 /\ ~b.extra /\ b.blanks # 1}        \* (keeps the product below TLC's set-size limit)
+Doubles == {File(<<p[1], p[2]>>) : p \in Spread(First \X Good, Cap)}
 ASSUME ndJsonSerialize(IOEnv.OUT_FILE, SetToSeq(Singles \cup Doubles))
 VARIABLE x
 Init == x = 0
